@@ -46,7 +46,7 @@ _whole.install(globals(), "C09",
                     "monitor recomputes every distance from the siblings' CURRENT populations).",
                note="numpy's norm and mean are oracle values (policy 3): the monitor recomputes them and skips decisions within 1e-9 relative of the threshold. MahalanobisFarEnough is outside the property.",
                technique="Coq theorem on the filter model + vm_compute differential run against the real filter classes + centroid/distance monitors on recorded rounds",
-               front_ends=["farfilters"], quick=160, thorough=4000, nontrivial=nontrivial, extra_checks=[direct, sessions],
+               front_ends=["farfilters", "accessors"], quick=160, thorough=4000, nontrivial=nontrivial, extra_checks=[direct, sessions],
                forces=[(2, {"height": 3}), (2, {"height": 2}), (1, {"height": 3, "engines": ["SEA", "DE", "CMA"]}),
                        (1, {"height": 2, "engines": ["SEA", "SEA"], "dim": 2, "levels_patch": [{"p_mutation": 0.1, "pop": 6}, {"p_mutation": 0.1, "pop": 6}]}),
                        (1, {"height": 3, "sprout": {"kind": "nbc", "gen_dist": 2.0, "trunc": 0.7, "fil_dist": 2.0, "level_limit": 3}})])
